@@ -1,8 +1,9 @@
 /-
 C01 — integer expressions have the C11 value and the C11 type.
 
-Property theorems only (definitions and helper lemmas: Model/C01Expr, Lemmas/C01Lemmas, C01OpLemmas, C01ArithLemmas,
-C01Select, C01MemLemmas, C01Compose, C01Frame, C01Value, C01Effects, C01Machine, C01EffectsValue, C01Pointer).
+Property theorems only (definitions and helper lemmas: Model/C01Expr, Model/C01ExprJ, Model/X86Jump, Lemmas/C01Lemmas,
+C01OpLemmas, C01ArithLemmas, C01Select, C01MemLemmas, C01Compose, C01Frame, C01Value, C01Effects, C01Machine, C01EffectsValue,
+C01Pointer, C01Jump, C01JumpMachine, C01JumpCompile, C01EffectsFull, C01ValueFull, C01LabelText).
 
 Objects:
 * `Gen.CommonType.getCommonType`, `opRule`  — regenerated from type.c on every check (translator);
@@ -13,7 +14,11 @@ Objects:
   the hidden temporaries of parse.c `to_assign` / `new_inc_dec`), `scaleCode` / `ptrAddCode` / `ptrDiffCode` — pointer
   arithmetic of `new_add` / `new_sub`; tied by instruction-text equality with `chibicc -S` on generated nests and on every
   pointer form × element size × index type;
-* `X86.run` — instruction semantics, tied to the host CPU;
+* `C01.compileJ` (Model/C01ExprJ) — `gen_expr` on the FULL expression type: `compileX` plus `&&` `||` `?:` with `cmp_zero`,
+  `je` / `jne` / `jmp` and the labels `.L.false.N` … numbered from the counter `count()`; tied by the text of instructions,
+  label definitions and jump targets (with the label numbers chibicc really hands out) on generated nests;
+* `X86.run` — instruction semantics, tied to the host CPU; `X86J.runJ` (Model/X86Jump) — the same with labels and jumps,
+  label resolution by position; `jCC` reads the flags like `setCC`; tied to the host CPU;
 * `Spec.IntSpec` — C11 6.3.1 / 6.5, tied to gcc.
 `Represents t r v` is the representation invariant of codegen.c (Lemmas/C01Lemmas).
 
@@ -24,9 +29,12 @@ import ChibiVerif.Lemmas.C01Compose
 import ChibiVerif.Lemmas.C01Value
 import ChibiVerif.Lemmas.C01EffectsValue
 import ChibiVerif.Lemmas.C01Pointer
+import ChibiVerif.Lemmas.C01ValueFull
+import ChibiVerif.Lemmas.C01LabelText
 
 namespace ChibiVerif.Props.C01
 open ChibiVerif.C01 ChibiVerif.X86 ChibiVerif.Asm ChibiVerif.Spec.IntSpec ChibiVerif.Gen.CommonType ChibiVerif.C01Codegen
+open ChibiVerif.X86J
 
 /-! ## typing -/
 
@@ -218,7 +226,7 @@ theorem C01_store (t : ITy) (s : State) (p : BitVec 64) (v : Int) (hp : s.read64
     `gen_expr` (`bin_glue`), composing `C01_load`, `C01_cast`, `C01_unary_full`, `C01_lognot`, `C01_binop`, `C01_shift`,
     `C01_rel_swapped`, `C01_op_type` with the frame lemmas of Lemmas/C01Frame.lean.  `compileE` is tied to `gen_expr` by
     instruction-text equality with `chibicc -S` on generated expression nests (checklib/C01.py leg b2).
-    Not covered (no jumps in Model/X86): `&&`, `||`, `?:`; assignments: `C01_value_effects` below. -/
+    Not covered here: assignments (`C01_value_effects` below) and `&&`, `||`, `?:` (`C01_value_full` below). -/
 theorem C01_value (σ : Env) (off : Nat → Int) (e : E) (t : ITy) (code : List Ins) (v : Int) (σ' : Env) (m : State)
     (hc : compileE σ.tys off e = some (t, code)) (hv : evalE σ e = some (v, σ'))
     (hf : FrameHolds σ off (depthE e) m) :
@@ -246,7 +254,8 @@ example : ∃ code, compileE exEnv.tys exOff exE = some (.i32, code) ∧ evalE e
     unchanged, **the frame holding `σ'`** (every assigned variable has received exactly the C11-converted value, every
     other variable is untouched), and no byte at or above `%rsp` outside the assigned variables and the temporaries has
     changed.  The lvalue of `op=` / `++` / `--` is evaluated once (through the hidden pointer).
-    Not covered: `&&`, `||`, `?:` (jumps), postfix `++` `--` on `_Bool` (two temporaries), lvalues other than variables. -/
+    `&&`, `||`, `?:` (jumps): `C01_value_full` below.  Not covered: postfix `++` `--` on `_Bool` (two temporaries), lvalues
+    other than variables. -/
 theorem C01_value_effects (σ : Env) (off toff : Nat → Int) (e : E) (t : ITy) (code : List Ins) (K : Nat) (v : Int)
     (σ' : Env) (m : State)
     (hc : compileX σ.tys off toff 0 e = some (t, code, K)) (hv : evalE σ e = some (v, σ')) (hnc : noConflict e = true)
@@ -285,6 +294,99 @@ theorem C01_value_effects_extends (tys : List ITy) (off toff : Nat → Int) (e :
   compileX_pure tys off toff e t code k h
 
 example : compileE exEnv.tys exOff exE ≠ none := by decide
+
+/-! ## the full expression type: `&&`, `||`, `?:` (code with labels and jumps) -/
+
+/-- **on jump-free code the machine with jumps is `X86.run`**: every theorem above about `X86.run code` is a theorem about
+    `runJ` on the program `J code` (fuel = number of lines) -/
+theorem C01_jump_free (is : List Ins) (s : State) : runJ is.length (J is) 0 s = X86.run is s :=
+  runJ_ins is s
+
+/-- **freshness of the labels `gen_expr` makes up from `count()`**: the code `compileJ` assembles while the counter goes
+    from `c0` to `c1` draws exactly `nlbl e` numbers (one per `&&`, `||`, `?:`), every label it defines has its number in
+    `[c0, c1)`, and no label is defined twice — so resolving a label by position (`findLbl`: the first definition) finds the
+    only definition, wherever the code is placed among code compiled with other counter values. -/
+theorem C01_labels_fresh (tys : List ITy) (off toff : Nat → Int) (e : E) (k0 c0 : Nat) (t : ITy) (code : List JI) (k1 c1 : Nat)
+    (h : compileJ tys off toff k0 c0 e = some (t, code, k1, c1)) :
+    c1 = c0 + nlbl e ∧ (∀ l ∈ defs code, c0 ≤ l.n ∧ l.n < c1) ∧ (defs code).Nodup :=
+  have f := compileJ_facts tys off toff e k0 c0 t code k1 c1 h
+  ⟨f.c, f.rng, f.nodup⟩
+
+/-- the printed label (`.L.else.7`) determines the structured label: resolution by position of structured labels is
+    resolution by position of the text the tie compares -/
+theorem C01_label_spelling (l l' : Lbl) (h : l.render = l'.render) : l = l' := Lbl.render_inj h
+
+/-- the full expression of the non-vacuity examples below: `(v0 && (v1 += v0)) ? (v1 || v0++) : 5L` -/
+def exJE : E := .cond (.land (.var 0) (.opassign .add 1 (.var 0))) (.lor (.var 1) (.postinc 0)) (.lit .i64 5)
+
+example : ∃ code, compileJ exEnv.tys exXOff exXToff 0 1 exJE = some (.i64, code, 2, 4) := ⟨_, rfl⟩
+
+/-- **value and side effects of EVERY expression of the type `E`: literals, variables, casts, unary and binary operators,
+    `,`, `=`, the ten `op=`, prefix and postfix `++` `--` on variables, and `&&`, `||`, `?:`, arbitrary nesting** (DESIGN
+    `C01_value` in full).  If `compileJ` assembles `code` of type `t` using `K` hidden temporaries and the label numbers
+    `c0 ≤ · < c1`, C11 defines the value `v` and the store `σ'` after `e` (`evalE`: short-circuit evaluation of `&&` `||`,
+    exactly one of the second / third operands of `?:` evaluated, result `int` 0 / 1 resp. the arm converted to the common
+    type), and the operands of every binary operator are free of conflicting accesses (`noConflict`, C11 6.5p2; the operands of
+    `&&` `||` `?:` `,` are sequenced and need no such condition), then from every machine state whose frame holds `σ`
+    (`FrameX`, `depthJ e` free stack slots) the program `code`, entered at its first line, **terminates within `code.length`
+    steps** (every jump taken is forward; `runJ` with fuel `code.length` returns), without a CPU fault, without a jump on
+    undefined flags or to a missing label, and leaves `%rax` representing `v` in type `t` = the C11 type of `e`, `%rsp` / `%rbp`
+    unchanged, **the frame holding `σ'`** — in particular the side effects of an operand that C11 does not evaluate have not
+    happened — and no byte at or above `%rsp` outside the variables `e` may assign and the temporaries has changed.
+    By induction on `e` over `EvJ` (Lemmas/C01JumpMachine.lean), whose combinators reuse every per-node theorem above
+    unchanged; `cmp_zero` is `C01_lognot`'s comparison; label resolution by position rests on `C01_labels_fresh`.
+    Not covered: postfix `++` `--` on `_Bool` (two temporaries), lvalues other than variables. -/
+theorem C01_value_full (σ : Env) (off toff : Nat → Int) (e : E) (t : ITy) (code : List JI) (K c0 c1 : Nat) (v : Int)
+    (σ' : Env) (m : State)
+    (hc : compileJ σ.tys off toff 0 c0 e = some (t, code, K, c1)) (hv : evalE σ e = some (v, σ')) (hnc : noConflict e = true)
+    (hf : FrameX σ off toff K (depthJ e) m) :
+    ∃ m', runJ code.length code 0 m = some m' ∧ Represents t (m'.get .rax) v ∧ typeOf σ e = some t ∧
+      m'.get .rsp = m.get .rsp ∧ m'.get .rbp = m.get .rbp ∧ FrameX σ' off toff K (depthJ e) m' ∧
+      (∀ a : BitVec 64, (m.get .rsp).toNat ≤ a.toNat → ¬ inVar σ.tys off (m.get .rbp) (wr e) a →
+        ¬ inTmp toff (m.get .rbp) 0 K a → m'.mem a = m.mem a) := by
+  have fc := compileJ_facts σ.tys off toff e 0 c0 t code K c1 hc
+  obtain ⟨hty, hE⟩ := value_j off toff K e σ t code v σ' 0 K c0 c1 hc hv hnc (Nat.le_refl _)
+  obtain ⟨m', hrun, hrep, hH, hu⟩ := hE m (depthJ e) _ hf.2.1 (Nat.le_refl _) hf.1 (Nat.le_refl _) hf.2.2
+  refine ⟨m', hrun.runJ fc.nodup, hrep, fc.ty σ rfl, hu.rsp, hu.rbp, ?_, hu.mem⟩
+  exact ⟨by rw [hu.rsp]; exact hf.1, by rw [hty, hu.rsp, hu.rbp]; exact hf.2.1, hH⟩
+
+/-- non-vacuity: `(v0 && (v1 += v0)) ? (v1 || v0++) : 5L` with `signed char v0 = -3`, `unsigned v1 = 7` in a concrete frame
+    (two hidden temporaries, three stack slots, labels 1 … 3): compiles, is conflict-free, has the C11 value 1 of type `long`,
+    leaves `v1 = 4` and — `v0++` not being evaluated — `v0 = -3`. -/
+example : ∃ code, compileJ exEnv.tys exXOff exXToff 0 1 exJE = some (.i64, code, 2, 4) ∧
+    evalE exEnv exJE = some (1, ⟨[.i8, .u32], [-3, 4]⟩) ∧ noConflict exJE = true ∧ depthJ exJE = 3 ∧
+    FrameX exEnv exXOff exXToff 2 (depthJ exJE) exXState :=
+  ⟨_, rfl, rfl, rfl, rfl, ⟨by decide, exXFrame.2.1, exXFrame.2.2⟩⟩
+
+/-- **the same wherever the code sits**: inside any program `pre ++ code ++ post` whose labels are defined once (e.g. the
+    function body around the expression, compiled with other values of the counter: `C01_labels_fresh`), execution entering
+    `code` at its first line reaches the line after its last one in at most `code.length` steps, with the conclusions of
+    `C01_value_full`. -/
+theorem C01_value_full_embedded (σ : Env) (off toff : Nat → Int) (e : E) (t : ITy) (code : List JI) (K c0 c1 : Nat) (v : Int)
+    (σ' : Env) (m : State) (pre post : List JI)
+    (hc : compileJ σ.tys off toff 0 c0 e = some (t, code, K, c1)) (hv : evalE σ e = some (v, σ')) (hnc : noConflict e = true)
+    (hf : FrameX σ off toff K (depthJ e) m) (hfresh : (defs (pre ++ code ++ post)).Nodup) :
+    ∃ m' n, n ≤ code.length ∧ stepsJ (pre ++ code ++ post) n (pre.length, m) = some (pre.length + code.length, m') ∧
+      Represents t (m'.get .rax) v ∧ m'.get .rsp = m.get .rsp ∧ m'.get .rbp = m.get .rbp ∧
+      FrameX σ' off toff K (depthJ e) m' ∧
+      (∀ a : BitVec 64, (m.get .rsp).toNat ≤ a.toNat → ¬ inVar σ.tys off (m.get .rbp) (wr e) a →
+        ¬ inTmp toff (m.get .rbp) 0 K a → m'.mem a = m.mem a) := by
+  obtain ⟨hty, hE⟩ := value_j off toff K e σ t code v σ' 0 K c0 c1 hc hv hnc (Nat.le_refl _)
+  obtain ⟨m', hrun, hrep, hH, hu⟩ := hE m (depthJ e) _ hf.2.1 (Nat.le_refl _) hf.1 (Nat.le_refl _) hf.2.2
+  obtain ⟨_, n, hn, hs⟩ := hrun _ _ (At_mid pre code post) hfresh
+  refine ⟨m', n, by omega, hs, hrep, hu.rsp, hu.rbp, ?_, hu.mem⟩
+  exact ⟨by rw [hu.rsp]; exact hf.1, by rw [hty, hu.rsp, hu.rbp]; exact hf.2.1, hH⟩
+
+example : (defs ([JI.lbl ⟨.end_, 0⟩] ++ (landCode 1 .i32 .i32 [] []) ++ [JI.lbl ⟨.else_, 9⟩])).Nodup := by decide
+
+/-- on the expressions `compileX` handles (no `&&` `||` `?:`) `compileJ` assembles the same code, as a jump-free program,
+    with the same type and temporaries and without drawing a label number — so `C01_value_full` extends
+    `C01_value_effects` (through `C01_jump_free`). -/
+theorem C01_value_full_extends (tys : List ITy) (off toff : Nat → Int) (e : E) (k c : Nat) (t : ITy) (code : List Ins) (k1 : Nat)
+    (h : compileX tys off toff k e = some (t, code, k1)) : compileJ tys off toff k c e = some (t, J code, k1, c) :=
+  (compileJ_of_compileX tys off toff e k c t code k1 h).1
+
+example : compileX exEnv.tys exXOff exXToff 0 exXE ≠ none := by decide
 
 /-! ## pointer arithmetic (parse.c `new_add`, `new_sub`) -/
 
